@@ -857,6 +857,15 @@ func (e *Engine) SortedAt(fn *ssa.Function, at ssa.Instruction, v ssa.Value, cfg
 	return ok && c.sorted(s, v)
 }
 
+// SortedAtAssuming is SortedAt under the assumption that the given values
+// (parameters of fn) are sorted on entry.
+func (e *Engine) SortedAtAssuming(fn *ssa.Function, at ssa.Instruction, v ssa.Value, cfg OrderConfig, assume map[ssa.Value]bool) bool {
+	c := &octx{e: e, cfg: cfg, fn: fn, assume: assume, wantAt: map[ssa.Instruction]bool{at: true}, atInstr: map[ssa.Instruction]ostate{}}
+	c.run()
+	s, ok := c.atInstr[at]
+	return ok && c.sorted(s, v)
+}
+
 // indexwiseMap recognises
 //
 //	out := make([]T, len(src)); for i, r := range src { out[i] = T{..., Score: r.Score} }
